@@ -73,8 +73,10 @@ def features(case, s, users):
         if op == "kconvert":   # the conversion uses the stored pool fees of both dApps
             fees = {}
             for x in steps[:s]:
-                if x["op"] in ("create", "upsert") and x["ok"] and x.get("params"):
+                if x["op"] == "create" and x["ok"] and x.get("params"):
                     fees[x["name"]] = x["params"]["fee"]
+                if x["op"] == "upsert" and x["ok"] and x.get("fee") is not None:
+                    fees[x["name"]] = x["fee"]        # the pool fee read back from the stored record
             fee = min([fees.get(st.get("name"), "0"), fees.get(st.get("name2"), "0")], key=float)
         if fee is not None and float(fee) < 0:
             return "negative-fee"
@@ -96,7 +98,7 @@ def sig_of(case, clauses, users):
 
 def brief(case, s):
     st = case["steps"][s]
-    hist = [{k: x[k] for k in ("op", "u", "name", "name2", "den", "amt", "fee", "ok", "status", "total", "ctime", "ptime", "liq", "cfg", "now") if k in x} for x in case["steps"][:s + 1]]
+    hist = [{k: x[k] for k in ("op", "u", "name", "name2", "den", "amt", "fee", "ok", "status", "total", "ctime", "ptime", "liq", "cfg", "now", "proposal", "registered") if k in x} for x in case["steps"][:s + 1]]
     return {"kind": case["kind"], "cfg": case.get("cfg"), "min_raw": case["min_raw"], "max_raw": case["max_raw"], "duration": case["duration"],
             "failing_step": s, "history": hist, "before": case["steps"][s - 1] if s else None, "after": st}
 
